@@ -16,4 +16,7 @@ def contracts():
             out.append(solvers.step_contract(ivp.Cfg(layout, calib, "filter", "ts0", q=1, d=2)))
         out.append(solvers.step_contract(ivp.Cfg(layout, "dynamic", "filter", "ts0", q=1, d=2)))
         out.append(solvers.step_contract(ivp.Cfg(layout, "none", "filter", "ts1", q=1, d=2)))
+    from contracts import errors
+
+    out += [errors.norm_agreement_contract("error_norm_scale_then_rms"), errors.norm_agreement_contract("error_norm_rms_then_scale")]
     return out
